@@ -35,7 +35,7 @@ def run(ctx, chk):
     # condition, shared with C03-c: command and container decoders delegate to deserialize_tagged.
     import rules_c03
     from report import Sub
-    sub = Sub(chk, "C14-a", lambda r: r in ("C03-c/framing", "C03-c/payload", "C03-c/tag"))
+    sub = Sub(chk, "C14-a", lambda r: r in ("C03-c/framing", "C03-c/payload", "C03-c/tag", "C03-c/result"))
     rules_c03.framing(ctx, sub)
     chk.floor("packet decoders that delegate their framing (shared with C03-c)", sub.count, 4)
     # (c) contracts: reuse the C02 machinery restricted to the contract part
